@@ -1,0 +1,18 @@
+//go:build verif
+// +build verif
+
+package utils
+
+// VerifOn is true only in builds with the `verif` tag; every instrumentation
+// call site is `if utils.VerifOn { utils.Verif(...) }` so that ordinary builds
+// compile the line away.
+const VerifOn = true
+
+// VerifHook is installed by the verification harness (nil = no-op).
+var VerifHook func(point string, args ...interface{})
+
+func Verif(point string, args ...interface{}) {
+	if h := VerifHook; h != nil {
+		h(point, args...)
+	}
+}
